@@ -11,8 +11,9 @@ package c17
 //   - instant selectors of range queries are re-bucketed to the step by the raw path (latest
 //     sample of each step bucket, stamped with the bucket's upper edge), which moves a sample by
 //     less than one step: it can outlive the look-back window by that much. The reference is also
-//     evaluated with the look-back widened and narrowed by one step; an output point (series,
-//     time) on which the three reference runs disagree is boundary-sensitive and skipped (counted).
+//     evaluated with the look-back widened and narrowed by one step; an evaluation time at which
+//     the three reference runs disagree on any output point is boundary-sensitive and all points
+//     at that time are skipped (counted).
 //   - expressions exposing raw sample timestamps (timestamp()) are not generated; neither are
 //     topk/bottomk (ties are broken by series order, which Select leaves unspecified) nor
 //     subqueries and @ (outside the stated domain; @ is disabled in qryn's engine).
@@ -158,7 +159,9 @@ var (
 	e2eAggs         = []string{"sum", "min", "max", "avg", "count", "group", "stddev", "stdvar"}
 	e2eRangeFuncs   = []string{"rate", "irate", "increase", "delta", "idelta", "deriv", "changes", "resets",
 		"sum_over_time", "avg_over_time", "min_over_time", "max_over_time", "count_over_time", "last_over_time",
-		"present_over_time", "stddev_over_time", "stdvar_over_time"}
+		"present_over_time", "stddev_over_time", "stdvar_over_time",
+		// the functions the roll-up path treats specially, twice
+		"count_over_time", "sum_over_time", "avg_over_time", "rate", "min_over_time", "max_over_time", "last_over_time"}
 	groupLabels = []string{"job", "env", "instance", "__name__", "le"}
 )
 
@@ -166,7 +169,7 @@ var (
 func genVectorExpr(rt *rapid.T, sel string, depth int) string {
 	off := ""
 	if chance(rt, 25, "offset") {
-		off = " offset " + durText(pick(rt, []int64{5000, 7000, 60000, 1000, 15000}, "offsetMs"))
+		off = " offset " + durText(pick(rt, offsets, "offsetMs"))
 	}
 	rng := pick(rt, ranges, "range")
 	switch k := between(rt, 0, 99, "exprKind"); {
@@ -227,12 +230,9 @@ func genRangeCall(rt *rapid.T, sel string, rng int64, off string) string {
 
 func genE2E(rt *rapid.T) e2eCase {
 	c := e2eCase{}
-	if chance(rt, 25, "instantQuery") {
+	if chance(rt, 35, "instantQuery") {
 		c.Instant = true
-		c.Start = int64(between(rt, 0, 600, "tHalfSec")) * 500
-		if chance(rt, 30, "oddMs") {
-			c.Start += int64(between(rt, 1, 499, "ms"))
-		}
+		c.Start = genInstantTime(rt)
 		c.End = c.Start
 	} else {
 		// QueryRange floors start / ceils end to 15 s (promQueryRangeController.go:51)
@@ -368,7 +368,7 @@ func predE2E(c e2eCase, o *evid.Obs) error {
 		return nil
 	}
 	// absent-label convention: find the selectors' matchers through the parser's own walk
-	dc, nsel, nrej, err := c.selectionClasses()
+	dc, nsel, nrej, hints, err := c.selectionClasses()
 	if err != nil {
 		return err
 	}
@@ -400,8 +400,13 @@ func predE2E(c e2eCase, o *evid.Obs) error {
 	rebucketed := false
 	for _, q := range be.sqlLog() {
 		if strings.Contains(q, "metrics_15s") {
-			o.Discard("downsampled-path")
-			return nil
+			// the roll-up is a legitimate source only at steps of 15 s and more (outside the
+			// domain); below - step 0 of instant queries included - its answer is compared
+			if c.Step >= 15000 {
+				o.Discard("downsampled-path")
+				return nil
+			}
+			o.Tag("roll-up-read-below-threshold")
 		}
 		if strings.Contains(q, "argMax(spls.value") {
 			rebucketed = true
@@ -428,24 +433,40 @@ func predE2E(c e2eCase, o *evid.Obs) error {
 			keys[k] = true
 		}
 	}
+	// An evaluation time at which any output point differs between the three reference runs is
+	// boundary-sensitive as a whole: the re-bucketing extends the life of a sample per selector (an
+	// instant selector under an aggregation is not re-bucketed, a bare one is), so at such a time
+	// the operands of a binary expression can be in a mix of states that no uniform perturbation of
+	// the look-back reproduces (`min without(x)(s) or s`: left operand gone, right one still alive).
+	sensitive := map[int64]bool{}
+	for k := range keys {
+		for _, m := range []seriesPts{ref, refWide, refNarrow} {
+			for t := range m[k] {
+				rv, rok := ref[k][t]
+				wv, wok := refWide[k][t]
+				nv, nok := refNarrow[k][t]
+				if rok != wok || rok != nok || (rok && (!sameVal(rv, wv) || !sameVal(rv, nv))) {
+					sensitive[t] = true
+				}
+			}
+		}
+	}
 	var errs []string
 	compared, skipped := 0, 0
 	for k := range keys {
 		times := map[int64]bool{}
-		for _, m := range []seriesPts{ref, refWide, refNarrow, got} {
+		for _, m := range []seriesPts{ref, got} {
 			for t := range m[k] {
 				times[t] = true
 			}
 		}
 		for t := range times {
-			rv, rok := ref[k][t]
-			wv, wok := refWide[k][t]
-			nv, nok := refNarrow[k][t]
-			if rok != wok || rok != nok || (rok && (!sameVal(rv, wv) || !sameVal(rv, nv))) {
+			if sensitive[t] {
 				skipped++
 				continue
 			}
 			compared++
+			rv, rok := ref[k][t]
 			gv, gok := got[k][t]
 			switch {
 			case rok && !gok:
@@ -473,6 +494,17 @@ func predE2E(c e2eCase, o *evid.Obs) error {
 	}
 	if strings.Contains(c.Expr, ") + (") || strings.Contains(c.Expr, " and ") || strings.Contains(c.Expr, " or ") || strings.Contains(c.Expr, " unless ") || strings.Contains(c.Expr, ") / (") {
 		o.Tag("expr:binary")
+	}
+	for _, h := range hints {
+		if rawOnlyByStep(&h) {
+			if c.Instant {
+				o.Tag("raw-only-by-step-clause:instant")
+			} else {
+				o.Tag("raw-only-by-step-clause:range")
+			}
+			o.Tag("raw-only-by-step-clause:func=" + h.Func)
+			break
+		}
 	}
 	if skipped > 0 {
 		o.Tag("has-boundary-sensitive-points")
@@ -502,11 +534,12 @@ func (c *e2eCase) describe() string {
 
 // selectionClasses records, through a Queryable that only observes, which matcher sets the
 // engine hands to Select for this expression, and classifies the stored series.
-func (c *e2eCase) selectionClasses() (dontCare bool, nsel, nrej int, err error) {
+func (c *e2eCase) selectionClasses() (dontCare bool, nsel, nrej int, hints []storage.SelectHints, err error) {
 	spy := &spyQueryable{db: &c.DB}
 	if _, err = c.run(newEngine(0), spy); err != nil {
-		return false, 0, 0, fmt.Errorf("reference run failed: %v", err)
+		return false, 0, 0, nil, fmt.Errorf("reference run failed: %v", err)
 	}
+	hints = spy.hints
 	for _, ms := range spy.seen {
 		s, r := 0, 0
 		for i := range c.DB.Series {
@@ -527,8 +560,9 @@ func (c *e2eCase) selectionClasses() (dontCare bool, nsel, nrej int, err error) 
 }
 
 type spyQueryable struct {
-	db   *mDB
-	seen [][]*labels.Matcher
+	db    *mDB
+	seen  [][]*labels.Matcher
+	hints []storage.SelectHints
 }
 
 func (s *spyQueryable) Querier(ctx context.Context, mint, maxt int64) (storage.Querier, error) {
@@ -542,6 +576,9 @@ type spyQuerier struct {
 
 func (q spyQuerier) Select(sorted bool, h *storage.SelectHints, ms ...*labels.Matcher) storage.SeriesSet {
 	q.spy.seen = append(q.spy.seen, ms)
+	if h != nil {
+		q.spy.hints = append(q.spy.hints, *h)
+	}
 	return q.memQuerier.Select(sorted, h, ms...)
 }
 
